@@ -351,6 +351,10 @@ class Ring:
             terms = sorted(a.n.items())
             m, cf = terms[0]
             if len(terms) == 1:
+                if len(m) == 1 and m[0][1] == 1 and self.atom_desc[m[0][0]] == ("libattr", "pi") and (2 * cf).denominator == 1:
+                    q = int(2 * cf) % 4  # angle = q * pi/2
+                    cv, sv = [(1, 0), (0, 1), (-1, 0), (0, -1)][q]
+                    return self.const(cv if name == "cos" else sv)
                 if m == () or cf.denominator != 1 or abs(cf) < 2:
                     return None
                 first = R(self, {m: Fraction(1 if cf > 0 else -1)})
